@@ -36,13 +36,19 @@ pub enum Kind {
     GlobK,
     /// calls a closure made by `main`
     MainCl,
+    /// composite: a function of its own whose body calls two sub-voices (`subs`); an inner edit
+    /// replaces one of them, leaving the other call site untouched one level below dsp
+    Duo,
+    /// `delay(N, phasor(P), D)`: a stateful call inline as the delay's input; an inner edit resizes
+    /// the delay line, leaving the phasor call site untouched
+    DlySrc,
 }
 
 /// Kinds used for generation. `Kind::Gate` (stateful calls in both arms of an `if`) is NOT in this
 /// list: on the pinned tree the VM underflows its state position on such programs (panic with
 /// overflow checks, heap corruption / abort without) even in a fault-free run. That is a crash of
 /// an accepted program (C03/C05 territory, not claimed here) and would only kill workers.
-pub const ALL_KINDS: [Kind; 20] = [
+pub const ALL_KINDS: [Kind; 22] = [
     Kind::Counter,
     Kind::Leaky,
     Kind::Lag2,
@@ -63,6 +69,8 @@ pub const ALL_KINDS: [Kind; 20] = [
     Kind::ArrPhase,
     Kind::GlobK,
     Kind::MainCl,
+    Kind::Duo,
+    Kind::DlySrc,
 ];
 
 #[derive(Clone, Copy, Debug, PartialEq, Serialize, Deserialize)]
@@ -106,7 +114,23 @@ pub struct Voice {
     pub input: InputSrc,
     /// extra levels of wrapping (`nest deeper` edit): the call is made through `wrapK_...`
     pub wrap: u32,
+    /// sub-voices of a composite (`Duo`)
+    #[serde(default)]
+    pub subs: Vec<Voice>,
 }
+
+/// kinds that may appear inside a composite: one scalar result, no dsp inputs needed
+pub const SUB_KINDS: [Kind; 9] = [
+    Kind::Counter,
+    Kind::Leaky,
+    Kind::Lag2,
+    Kind::Mfb,
+    Kind::Echo,
+    Kind::Clk,
+    Kind::Mmf,
+    Kind::CntMem,
+    Kind::Nest,
+];
 
 impl Voice {
     /// Name of the function that implements this voice (delay length is part of the name
@@ -134,6 +158,8 @@ impl Voice {
             Kind::ArrPhase => "arrphase".into(),
             Kind::GlobK => "globk".into(),
             Kind::MainCl => "maincl".into(),
+            Kind::Duo => format!("duo{}", self.id),
+            Kind::DlySrc => format!("dlysrc{}", self.id),
         };
         base
     }
@@ -152,6 +178,7 @@ impl Voice {
         let x = self.input.render();
         match self.kind {
             Kind::Counter | Kind::SrPhase | Kind::ArrPhase | Kind::GlobK | Kind::MainCl => vec![lit(self.p[0])],
+            Kind::Duo | Kind::DlySrc => vec![],
             Kind::Leaky => vec![x, lit(self.p[0])],
             Kind::Lag2 | Kind::Mfb | Kind::Mmf => vec![x],
             Kind::Echo => vec![x, lit(self.p[0])],
@@ -261,6 +288,35 @@ impl Voice {
                 "mmf".into(),
                 "fn mmf(x){\n  let a = mem(x)\n  let b = mem(a)\n  self * 0.25 + b\n}".into(),
             )],
+            Kind::Duo => {
+                let mut d = vec![];
+                for sv in &self.subs {
+                    d.extend(sv.defs());
+                }
+                let call = |sv: &Voice| format!("{}({})", sv.fn_name(), sv.args().join(", "));
+                d.push((
+                    self.fn_name(),
+                    format!(
+                        "fn {}(){{\n  let a = {}\n  let b = {}\n  a + b * 0.5\n}}",
+                        self.fn_name(),
+                        call(&self.subs[0]),
+                        call(&self.subs[1])
+                    ),
+                ));
+                d
+            }
+            Kind::DlySrc => vec![
+                phasor,
+                (
+                    self.fn_name(),
+                    format!(
+                        "fn {}(){{\n  delay({n}, phasor({}), {})\n}}",
+                        self.fn_name(),
+                        lit(self.p[0]),
+                        lit(self.p[1])
+                    ),
+                ),
+            ],
             Kind::ArrPhase => vec![
                 phasor,
                 ("tblarr".into(), "let tblarr = [1.0, 2.5, 4.0, 8.0, 16.0]".into()),
@@ -330,6 +386,8 @@ pub struct Model {
     pub s: Vec<f64>,
     pub ring: Vec<f64>,
     pub w: usize,
+    /// models of the sub-voices of a composite
+    pub subs: Vec<Model>,
 }
 
 impl Model {
@@ -338,17 +396,18 @@ impl Model {
             Kind::Counter | Kind::Leaky | Kind::Clk | Kind::SrPhase | Kind::ArrPhase | Kind::GlobK | Kind::MainCl => 1,
             Kind::Lag2 | Kind::Mfb | Kind::Pair | Kind::Nest | Kind::CntMem | Kind::Late => 2,
             Kind::Gate | Kind::Wide | Kind::Deep | Kind::Mmf | Kind::LateMem => 3,
-            Kind::Echo => 0,
-            Kind::EchoMod | Kind::Comb => 1,
+            Kind::Echo | Kind::Duo => 0,
+            Kind::EchoMod | Kind::Comb | Kind::DlySrc => 1,
         };
         let ring = match v.kind {
-            Kind::Echo | Kind::EchoMod | Kind::Comb => vec![0.0; v.n as usize],
+            Kind::Echo | Kind::EchoMod | Kind::Comb | Kind::DlySrc => vec![0.0; v.n as usize],
             _ => vec![],
         };
         Model {
             s: vec![0.0; ns],
             ring,
             w: 0,
+            subs: v.subs.iter().map(Model::zero).collect(),
         }
     }
 
@@ -388,6 +447,15 @@ impl Model {
             Kind::SrPhase => {
                 self.s[0] += p[0] / sample_rate;
                 self.s[0]
+            }
+            Kind::Duo => {
+                let a = self.subs[0].step(&v.subs[0], t, dsp_in, sample_rate);
+                let b = self.subs[1].step(&v.subs[1], t, dsp_in, sample_rate);
+                a + b * 0.5
+            }
+            Kind::DlySrc => {
+                let ph = Self::phasor(&mut self.s[0], p[0]);
+                self.ring_process(ph, p[1])
             }
             Kind::ArrPhase => {
                 let i = Self::phasor(&mut self.s[0], p[0]) as usize;
@@ -531,6 +599,11 @@ pub fn gen_voice(rng: &mut Rng, id: u32, kind: Kind, n_in: u32, max_delay: u32) 
         }
         Kind::SrPhase => p[0] = *rng.pick(&[110.0, 440.0, 1000.0, 12000.0]),
         Kind::ArrPhase => p[0] = rng.range(2, 5) as f64,
+        Kind::DlySrc => {
+            p[0] = rng.range(2, 9) as f64;
+            p[1] = rng.range(1, (n - 1).max(1) as u64) as f64;
+        }
+        Kind::Duo => {}
         Kind::GlobK | Kind::MainCl => p[0] = small(rng),
         Kind::Leaky => p[0] = gain(rng),
         Kind::Late | Kind::LateMem => {
@@ -556,14 +629,38 @@ pub fn gen_voice(rng: &mut Rng, id: u32, kind: Kind, n_in: u32, max_delay: u32) 
         }
         Kind::Lag2 | Kind::Mfb | Kind::Mmf => {}
     }
-    Voice {
+    let mut v = Voice {
         id,
         kind,
         p,
         n,
         input,
         wrap: 0,
+        subs: vec![],
+    };
+    if kind == Kind::Duo {
+        // sub ids are derived here and re-assigned by the program generator when it needs them
+        // to be globally fresh (inner edits)
+        for k in 0..2u32 {
+            let sk = *rng.pick(&SUB_KINDS);
+            let mut sv = gen_voice(rng, 500_000 + id * 8 + k, sk, 0, max_delay);
+            if matches!(sv.input, InputSrc::DspIn(_)) {
+                sv.input = InputSrc::Now;
+            }
+            v.subs.push(sv);
+        }
+        // the two sub-sites must be told apart by shape: re-draw the second until the kinds differ
+        let mut guard = 0;
+        while v.subs[1].kind == v.subs[0].kind && guard < 20 {
+            let sk = *rng.pick(&SUB_KINDS);
+            v.subs[1] = gen_voice(rng, 500_000 + id * 8 + 1, sk, 0, max_delay);
+            if matches!(v.subs[1].input, InputSrc::DspIn(_)) {
+                v.subs[1].input = InputSrc::Now;
+            }
+            guard += 1;
+        }
     }
+    v
 }
 
 /// Change one constant of the voice without changing its state shape. Returns false if the voice
@@ -575,6 +672,21 @@ pub fn tweak_constant(rng: &mut Rng, v: &mut Voice) -> bool {
             true
         }
         Kind::ArrPhase => false,
+        Kind::DlySrc => {
+            let n = v.n as u64;
+            if n <= 2 {
+                return false;
+            }
+            let cur = v.p[1] as u64;
+            v.p[1] = (if cur < n - 1 { cur + 1 } else { 1 }) as f64;
+            true
+        }
+        Kind::Duo => {
+            let mut sub = v.subs[0].clone();
+            let ok = tweak_constant(rng, &mut sub);
+            v.subs[0] = sub;
+            ok
+        }
         Kind::Leaky => {
             v.p[0] = if v.p[0] == 0.5 { 0.25 } else { 0.5 };
             true
